@@ -633,29 +633,58 @@ Section Space.
     rewrite H2. now apply cread_some in H1.
   Qed.
 
+  (* MoveToFront *)
+  Notation Ltouch := (lru_touch K V keqb).
+
+  Lemma ltouch_read : forall l k k', Cread (Ltouch l k) k' = Cread l k'.
+  Proof.
+    intros l k k'. unfold lru_touch. destruct (Cread l k) as [old|] eqn:E; [|reflexivity].
+    assert (Hk := proj2 (cread_some _ _ _ E)).
+    unfold c_read at 1. simpl. fold (Cread (Cremove l k) k'). rewrite Hk.
+    destruct (keqb k' k) eqn:E2.
+    - apply keqb_spec in E2. subst k'. now rewrite E.
+    - now rewrite cread_remove, E2.
+  Qed.
+
+  Lemma ltouch_in : forall l k x, In x (Ltouch l k) -> In x l.
+  Proof.
+    intros l k x H. unfold lru_touch in H. destruct (Cread l k) as [old|] eqn:E; [|exact H].
+    destruct H as [H|H]; [subst; now apply cread_some in E|].
+    unfold c_remove in H. now apply filter_In in H.
+  Qed.
+
   (* dl = keys whose value changed in the commit being post-processed and whose new row has
      not been written to the cache yet ("dirty"); empty outside postCommit *)
   Definition lru_ok (dl : list K) (R : nat) (S : K -> V) (l : list CE) : Prop :=
     forall e, In e l ->
       rnd e <= R /\ (In (key e) dl -> rnd e < R) /\ (~ In (key e) dl -> val e = S (key e)).
-  Definition pend_ok (dl : list K) (R : nat) (S : K -> V) (l p : list CE) : Prop :=
-    forall e, In e p ->
-      rnd e <= R /\ (In (key e) dl -> rnd e < R) /\
-      (~ In (key e) dl -> val e = S (key e) \/ exists e', Cread l (key e) = Some e' /\ rnd e < rnd e').
+  (* something a reader took from the DB at round [rnd]: only binding while that is still the
+     DB round *)
+  Definition ent_ok (R : nat) (S : K -> V) (e : CE) : Prop :=
+    rnd e <= R /\ (rnd e = R -> val e = S (key e)).
+  Definition nfe_ok (R : nat) (S : K -> V) (p : K * nat) : Prop :=
+    snd p <= R /\ (snd p = R -> S (fst p) = vempty).
+  Definition item_ok (R : nat) (S : K -> V) (x : CE + K * nat) : Prop :=
+    match x with inl e => ent_ok R S e | inr p => nfe_ok R S p end.
   Definition nf_ok (dl : list K) (S : K -> V) (l : list CE) (ks : list K) : Prop :=
     forall k, In k ks -> ~ In k dl -> S k = vempty \/ Cread l k <> None.
 
-  Definition CInvD (dl : list K) (R : nat) (S : K -> V) (c : cache K V) : Prop :=
-    lru_ok dl R S (c_lru K V c) /\ pend_ok dl R S (c_lru K V c) (c_pend K V c) /\
-    nf_ok dl S (c_lru K V c) (c_nf K V c ++ c_pnf K V c).
+  Record CInvD (dl : list K) (R : nat) (S : K -> V) (c : cache K V) : Prop := mkCInvD {
+    ci_lru : lru_ok dl R S (c_lru K V c);
+    ci_pend : Forall (ent_ok R S) (c_pend K V c);
+    ci_pnf : Forall (nfe_ok R S) (c_pnf K V c);
+    ci_stall : Forall (item_ok R S) (c_stall K V c);
+    ci_nf : nf_ok dl S (c_lru K V c) (c_nf K V c) }.
   Definition CInv := CInvD [].
 
   Lemma cinv_empty : forall R S, CInv R S (cache_empty K V).
   Proof.
-    intros R S. split; [|split].
-    - intros e H. inversion H.
-    - intros e H. inversion H.
-    - intros k H. inversion H.
+    intros R S. constructor; simpl.
+    - intros x Hx. inversion Hx.
+    - constructor.
+    - constructor.
+    - constructor.
+    - intros x Hx. inversion Hx.
   Qed.
 
   Lemma in_dec_k : forall (k : K) (l : list K), {In k l} + {~ In k l}.
@@ -666,28 +695,20 @@ Section Space.
     ~ In k dl -> CInvD (k :: dl) R S c ->
     CInvD dl R S (cache_write K V keqb true c (mkCE K V k (S k) R)).
   Proof.
-    intros k dl R S c Hk [Hl [Hp Hn]]. unfold cache_write, CInvD. simpl.
+    intros k dl R S c Hk [Hl Hp Hpn Hs Hn]. unfold cache_write.
     set (e := mkCE K V k (S k) R). set (l := c_lru K V c) in *.
     assert (Hw : winner l e = e).
     { destruct (winner_cases l e) as [[H _]|[old [H1 [H2 H3]]]]; [exact H|].
       apply cread_some in H1. destruct H1 as [H1 H1k]. simpl in H1k.
       destruct (Hl old H1) as [_ [Hd _]]. rewrite H1k in Hd. simpl in H3.
       specialize (Hd (or_introl eq_refl)). lia. }
-    split; [|split].
+    constructor; simpl; try assumption.
     - (* lru_ok *)
       intros e0 H. destruct (lwrite_in l e e0 H) as [Hx|[Hx Hne]].
       + rewrite Hx, Hw. simpl. split; [lia|split; [intro; contradiction|intro; reflexivity]].
       + destruct (Hl e0 Hx) as [H1 [H2 H3]]. split; [exact H1|split].
         * intro Hd. apply H2. now right.
         * intro Hd. apply H3. intros [Hy|Hy]; [simpl in Hne; congruence|contradiction].
-    - (* pend_ok *)
-      intros e0 H. destruct (Hp e0 H) as [H1 [H2 H3]]. split; [exact H1|split].
-      + intro Hd. apply H2. now right.
-      + intro Hd. destruct (keqb_dec (key e0) k) as [Hy|Hy].
-        * right. exists e. rewrite lwrite_read, Hy. simpl. rewrite kref, Hw. split; [reflexivity|].
-          simpl. apply H2. now left.
-        * destruct H3 as [Hq|[e' [Hq1 Hq2]]]; [intros [Hz|Hz]; [congruence|contradiction] | now left |].
-          right. exists e'. rewrite lwrite_read. simpl. rewrite (kneq _ _ Hy). now split.
     - (* nf_ok *)
       intros k0 Hk0 Hd. destruct (keqb_dec k0 k) as [Hy|Hy].
       + right. rewrite lwrite_read, Hy. simpl. rewrite kref. discriminate.
@@ -695,83 +716,112 @@ Section Space.
         right. rewrite lwrite_read. simpl. now rewrite (kneq _ _ Hy).
   Qed.
 
-  (* entering postCommit: the rows changed by the commit become dirty *)
+  Lemma ent_ok_enter : forall R R' S S' e, R < R' -> ent_ok R S e -> ent_ok R' S' e.
+  Proof. intros R R' S S' e HR [H1 _]. split; [lia|intro; lia]. Qed.
+  Lemma nfe_ok_enter : forall R R' S S' p, R < R' -> nfe_ok R S p -> nfe_ok R' S' p.
+  Proof. intros R R' S S' p HR [H1 _]. split; [lia|intro; lia]. Qed.
+
+  (* entering postCommit: the rows changed by the commit become dirty; whatever readers took
+     from the DB before is now from an older round *)
   Lemma cinvd_enter : forall dl R R' S S' c,
     R < R' -> (forall k, ~ In k dl -> S' k = S k) ->
     CInv R S c -> CInvD dl R' S' c.
   Proof.
-    intros dl R R' S S' c HR HS [Hl [Hp Hn]]. split; [|split].
+    intros dl R R' S S' c HR HS [Hl Hp Hpn Hs Hn]. constructor.
     - intros e H. destruct (Hl e H) as [H1 [_ H3]]. split; [lia|split; [intros; lia|]].
       intro Hd. rewrite (HS _ Hd). apply H3. tauto.
-    - intros e H. destruct (Hp e H) as [H1 [_ H3]]. split; [lia|split; [intros; lia|]].
-      intro Hd. rewrite (HS _ Hd). apply H3. tauto.
+    - eapply Forall_impl; [|exact Hp]. intros e. now apply ent_ok_enter.
+    - eapply Forall_impl; [|exact Hpn]. intros e. now apply nfe_ok_enter.
+    - eapply Forall_impl; [|exact Hs]. intros [e|q]; simpl; [now apply ent_ok_enter|now apply nfe_ok_enter].
     - intros k Hk Hd. rewrite (HS _ Hd). apply (Hn k Hk). tauto.
   Qed.
 
-  (* flushPendingWrites *)
+  (* flushPendingWritesSince *)
+  Notation Fone := (flush_one K V keqb true).
+
   Lemma flush_fold : forall R S p l ks,
-    lru_ok [] R S l -> pend_ok [] R S l p -> nf_ok [] S l ks ->
-    lru_ok [] R S (fold_left Lwrite p l) /\ nf_ok [] S (fold_left Lwrite p l) ks.
+    lru_ok [] R S l -> Forall (ent_ok R S) p -> nf_ok [] S l ks ->
+    lru_ok [] R S (fold_left (Fone R) p l) /\ nf_ok [] S (fold_left (Fone R) p l) ks.
   Proof.
     intros R S. induction p as [|e p IH]; intros l ks Hl Hp Hn; simpl; [now split|].
-    apply IH.
-    - (* lru_ok after one write *)
-      intros x Hx. destruct (lwrite_in l e x Hx) as [Hy|[Hy _]]; [|now apply Hl].
-      subst x. destruct (winner_cases l e) as [[H Hlt]|[old [H1 [H2 H3]]]].
-      + rewrite H. destruct (Hp e (or_introl eq_refl)) as [Ha [_ Hb]]. split; [exact Ha|split; [simpl; tauto|]].
-        intros _. destruct (Hb (fun x => x)) as [Hc|[e' [Hc1 Hc2]]]; [exact Hc|].
-        specialize (Hlt e' Hc1). lia.
-      + rewrite H2. apply Hl. now apply cread_some in H1.
-    - (* remaining pending entries *)
-      intros x Hx. destruct (Hp x (or_intror Hx)) as [Ha [_ Hb]]. split; [exact Ha|split; [simpl; tauto|]].
-      intros _. destruct (Hb (fun z => z)) as [Hc|[e' [Hc1 Hc2]]]; [now left|]. right.
-      rewrite lwrite_read. destruct (keqb (key x) (key e)) eqn:E.
-      + apply keqb_spec in E. rewrite E in Hc1. exists (winner l e). split; [reflexivity|].
-        destruct (winner_cases l e) as [[H Hlt]|[old [H1 [H2 H3]]]].
-        * rewrite H. specialize (Hlt e' Hc1). lia.
-        * rewrite H2. rewrite Hc1 in H1. inversion H1; subst. exact Hc2.
-      + exists e'. now split.
-    - intros k Hk Hd. destruct (Hn k Hk Hd) as [Hq|Hq]; [now left|]. right.
-      rewrite lwrite_read. destruct (keqb k (key e)); [discriminate|exact Hq].
+    inversion Hp as [|e' p' He Hp']; subst. destruct He as [He1 He2].
+    destruct (rnd e <? R) eqn:E.
+    - (* read at an older DB round: promotion only *)
+      assert (Hstep : Fone R l e = Ltouch l (key e)) by (unfold flush_one; simpl; now rewrite E).
+      rewrite Hstep. apply IH; [|exact Hp'|].
+      + intros x Hx. apply Hl. now apply ltouch_in in Hx.
+      + intros k Hk Hd. rewrite ltouch_read. now apply Hn.
+    - assert (Hstep : Fone R l e = Lwrite l e) by (unfold flush_one; simpl; now rewrite E).
+      rewrite Hstep. apply Nat.ltb_ge in E. assert (Heq : rnd e = R) by lia. apply IH; [|exact Hp'|].
+      + intros x Hx. destruct (lwrite_in l e x Hx) as [Hy|[Hy _]]; [|now apply Hl].
+        subst x. destruct (winner_cases l e) as [[H _]|[old [H1 [H2 _]]]].
+        * rewrite H. split; [lia|split; [simpl; tauto|]]. intros _. now apply He2.
+        * rewrite H2. apply Hl. now apply cread_some in H1.
+      + intros k Hk Hd. destruct (Hn k Hk Hd) as [Hq|Hq]; [now left|]. right.
+        rewrite lwrite_read. destruct (keqb k (key e)); [discriminate|exact Hq].
   Qed.
 
-  Lemma cinv_flush : forall R S c, CInv R S c -> CInv R S (cache_flush K V keqb true c).
+  Lemma cinv_flush : forall R S c, CInv R S c -> CInv R S (cache_flush K V keqb true true R c).
   Proof.
-    intros R S c [Hl [Hp Hn]]. unfold cache_flush. simpl.
-    destruct (flush_fold R S _ _ _ Hl Hp Hn) as [H1 H2].
-    split; [exact H1|]. split; [intros x Hx; inversion Hx|].
-    intros k Hk Hd. simpl in Hk. rewrite app_nil_r in Hk. apply H2; [|exact Hd].
-    rewrite in_app_iff in *. tauto.
+    intros R S c [Hl Hp Hpn Hs Hn]. unfold cache_flush.
+    destruct (flush_fold R S _ _ (c_nf K V c) Hl Hp Hn) as [H1 H2].
+    constructor; simpl; [exact H1|constructor|constructor|exact Hs|].
+    intros k Hk Hd. apply in_app_iff in Hk. destruct Hk as [Hk|Hk]; [|now apply H2].
+    left. apply in_map_iff in Hk. destruct Hk as [[k0 r0] [Hk1 Hk2]]. simpl in Hk1. subst k0.
+    apply filter_In in Hk2. destruct Hk2 as [Hk2 Hk3]. simpl in Hk3.
+    rewrite Forall_forall in Hpn. destruct (Hpn _ Hk2) as [Ha Hb]. simpl in *.
+    apply Hb. apply negb_true_iff, Nat.ltb_ge in Hk3. lia.
   Qed.
 
   Lemma cinv_flush_prune : forall R S c n,
-    CInv R S c -> CInv R S (cache_prune K V true (cache_flush K V keqb true c) n).
+    CInv R S c -> CInv R S (cache_prune K V true (cache_flush K V keqb true true R c) n).
   Proof.
-    intros R S c n H. apply cinv_flush in H. destruct H as [Hl _]. unfold cache_prune. simpl in *.
-    split; [|split].
+    intros R S c n H. apply cinv_flush in H. destruct H as [Hl Hp Hpn Hs Hn]. unfold cache_prune.
+    simpl in *. constructor; simpl; try assumption.
     - intros e He. apply Hl. rewrite <- (firstn_skipn n). apply in_or_app. now left.
-    - intros x Hx. inversion Hx.
     - intros x Hx. inversion Hx.
   Qed.
 
   Lemma cinv_wpend : forall R S c en pcap e,
-    CInv R S c -> rnd e <= R -> val e = S (key e) -> CInv R S (cache_wpend K V en pcap c e).
+    CInv R S c -> ent_ok R S e -> CInv R S (cache_wpend K V en pcap c e).
   Proof.
-    intros R S c en pcap e [Hl [Hp Hn]] H1 H2. unfold cache_wpend.
-    destruct (en && (length (c_pend K V c) <? pcap)); [|split; [exact Hl|split; [exact Hp|exact Hn]]]. simpl.
-    split; [exact Hl|]. split; [|exact Hn].
-    intros x Hx. apply in_app_iff in Hx. destruct Hx as [Hx|[Hx|[]]]; [now apply Hp|]. subst x.
-    split; [exact H1|split; [simpl; tauto|]]. intros _. now left.
+    intros R S c en pcap e [Hl Hp Hpn Hs Hn] He. unfold cache_wpend.
+    destruct (en && (length (c_pend K V c) <? pcap)); [|now constructor].
+    constructor; simpl; try assumption. apply Forall_app. split; [exact Hp|now constructor].
   Qed.
 
-  Lemma cinv_wpnf : forall R S c en pcap k,
-    CInv R S c -> S k = vempty -> CInv R S (cache_wpnf K V en pcap c k).
+  Lemma cinv_wpnf : forall R S c en pcap p,
+    CInv R S c -> nfe_ok R S p -> CInv R S (cache_wpnf K V en pcap c p).
   Proof.
-    intros R S c en pcap k [Hl [Hp Hn]] H1. unfold cache_wpnf.
-    destruct (en && (length (c_pnf K V c) <? pcap)); [|split; [exact Hl|split; [exact Hp|exact Hn]]]. simpl.
-    split; [exact Hl|]. split; [exact Hp|].
-    intros x Hx Hd. simpl in Hx. rewrite app_assoc in Hx. apply in_app_iff in Hx.
-    destruct Hx as [Hx|[Hx|[]]]; [now apply Hn|]. subst x. now left.
+    intros R S c en pcap p [Hl Hp Hpn Hs Hn] He. unfold cache_wpnf.
+    destruct (en && (length (c_pnf K V c) <? pcap)); [|now constructor].
+    constructor; simpl; try assumption. apply Forall_app. split; [exact Hpn|now constructor].
+  Qed.
+
+  Lemma cinv_put : forall R S c stall en pcap x,
+    CInv R S c -> item_ok R S x -> CInv R S (cache_put K V stall en pcap c x).
+  Proof.
+    intros R S c stall en pcap x H Hx. unfold cache_put. destruct stall.
+    - destruct en; [|exact H]. destruct H as [Hl Hp Hpn Hs Hn]. constructor; simpl; try assumption.
+      apply Forall_app. split; [exact Hs|now constructor].
+    - destruct x as [e|p]; [now apply cinv_wpend|now apply cinv_wpnf].
+  Qed.
+
+  Lemma remove_nth_in : forall (A : Type) (l : list A) n x, In x (remove_nth n l) -> In x l.
+  Proof.
+    induction l as [|y l IH]; intros n x H; destruct n; simpl in *; try contradiction.
+    - now right.
+    - destruct H as [H|H]; [now left|right; now apply (IH n)].
+  Qed.
+
+  (* a stalled reader finally executes its cache write *)
+  Lemma cinv_land : forall R S c en pcap n, CInv R S c -> CInv R S (cache_land K V en pcap c n).
+  Proof.
+    intros R S c en pcap n H. unfold cache_land. destruct (nth_error (c_stall K V c) n) as [x|] eqn:E; [|exact H].
+    destruct H as [Hl Hp Hpn Hs Hn]. apply cinv_put.
+    - constructor; simpl; try assumption. rewrite Forall_forall in *. intros y Hy. apply Hs.
+      now apply remove_nth_in in Hy.
+    - rewrite Forall_forall in Hs. apply Hs. now apply nth_error_In in E.
   Qed.
 
   (* a disabled cache stays empty *)
@@ -849,36 +899,39 @@ Section Space.
   Notation Fall := (sp_fall K V keqb vempty is_empty nf_mode).
   Notation Lookup := (sp_lookup K V D keqb interp vempty is_empty nf_mode).
 
-  Lemma sp_fall_ok : forall en pcap hist R dbr mem s k res s',
+  Lemma cache_put_dis : forall stall pcap c x, cache_put K V stall false pcap c x = c.
+  Proof. intros. unfold cache_put, cache_wpend, cache_wpnf. destruct stall; [reflexivity|now destruct x]. Qed.
+
+  Lemma sp_fall_ok : forall stall en pcap hist R dbr mem s k res s',
     SpInv en hist R dbr mem s ->
-    Fall en pcap R dbr s k = (res, s') ->
+    Fall stall en pcap R dbr s k = (res, s') ->
     SpInv en hist R dbr mem s' /\
     (forall v, res = LOk v -> v = Sf hist R k) /\
     (dbr = R -> exists v, res = LOk v) /\
     (R < dbr -> res = LRetry \/ exists v, res = LOk v).
   Proof.
-    intros en pcap hist R dbr mem s k res s' [Hm Hc Hd Hdb] H. unfold sp_fall in H.
+    intros stall en pcap hist R dbr mem s k res s' [Hm Hc Hd Hdb] H. unfold sp_fall in H.
     assert (Hdis : forall c', (en = false -> c' = s_cache K V s) -> cache_dis en c').
     { intros c' Hx He. rewrite (Hx He). now apply Hd. }
     destruct (Cread (c_lru K V (s_cache K V s)) k) as [e|] eqn:Er.
     - (* cache hit *)
       inversion H; subst res s'. clear H. apply cread_some in Er. destruct Er as [Hin Hk].
-      destruct Hc as [Hl [Hp Hn]]. destruct (Hl e Hin) as [H1 [_ H3]].
+      destruct (ci_lru _ _ _ _ Hc e Hin) as [H1 [_ H3]].
       assert (Hv : val e = Sf hist R (key e)) by (apply H3; tauto).
       split; [|split; [|split]].
       + constructor; simpl; [exact Hm| |
           apply Hdis; intro He; unfold cache_wpend; now rewrite He | exact Hdb].
-        apply cinv_wpend; [now split|exact H1|exact Hv].
+        apply cinv_wpend; [exact Hc|]. split; [exact H1|intro; exact Hv].
       + intros v Hx. inversion Hx. now rewrite Hv, Hk.
       + eauto.
       + eauto.
     - destruct (nf_mode && existsb (keqb k) (c_nf K V (s_cache K V s))) eqn:Enf.
       + (* notFound hit *)
         inversion H; subst res s'. clear H. apply andb_true_iff in Enf. destruct Enf as [_ Enf].
-        apply existsb_keqb in Enf. destruct Hc as [Hl [Hp Hn]].
+        apply existsb_keqb in Enf.
         split; [now constructor|]. split; [|split; eauto].
         intros v Hx. inversion Hx; subst v.
-        destruct (Hn k) as [Hq|Hq]; [apply in_or_app; now left|tauto|now symmetry|contradiction].
+        destruct (ci_nf _ _ _ _ Hc k Enf) as [Hq|Hq]; [tauto|now symmetry|contradiction].
       + destruct (dbr =? R) eqn:Edb.
         * apply Nat.eqb_eq in Edb. subst dbr.
           destruct (nf_mode && is_empty (Dbget (s_db K V s) k)) eqn:Eemp.
@@ -886,14 +939,14 @@ Section Space.
              destruct Eemp as [_ Eemp]. apply is_empty_spec in Eemp. rewrite Hdb in Eemp.
              split; [|split; [|split; eauto]].
              ++ constructor; simpl; [exact Hm| |
-                  apply Hdis; intro He; unfold cache_wpnf; now rewrite He | exact Hdb].
-                now apply cinv_wpnf.
+                  apply Hdis; intro He; rewrite He; apply cache_put_dis | exact Hdb].
+                apply cinv_put; [exact Hc|]. simpl. split; simpl; [lia|intro; exact Eemp].
              ++ intros v Hx. inversion Hx; subst v. now symmetry.
           -- inversion H; subst res s'. clear H.
              split; [|split; [|split; eauto]].
              ++ constructor; simpl; [exact Hm| |
-                  apply Hdis; intro He; unfold cache_wpend; now rewrite He | exact Hdb].
-                apply cinv_wpend; [exact Hc|simpl; lia|simpl; apply Hdb].
+                  apply Hdis; intro He; rewrite He; apply cache_put_dis | exact Hdb].
+                apply cinv_put; [exact Hc|]. simpl. split; simpl; [lia|intro; apply Hdb].
              ++ intros v Hx. inversion Hx. apply Hdb.
         * apply Nat.eqb_neq in Edb. destruct (dbr <? R) eqn:Elt.
           -- apply Nat.ltb_lt in Elt. inversion H; subst res s'.
@@ -904,15 +957,15 @@ Section Space.
              split; [intro; congruence|intro; now left].
   Qed.
 
-  Lemma sp_lookup_ok : forall en pcap hist R dbr mem s r k res s',
+  Lemma sp_lookup_ok : forall stall en pcap hist R dbr mem s r k res s',
     SpInv en hist R dbr mem s -> is_prefix hist R mem ->
-    Lookup en pcap R dbr mem s r k = (res, s') ->
+    Lookup stall en pcap R dbr mem s r k = (res, s') ->
     SpInv en hist R dbr mem s' /\
     (forall v, res = LOk v -> v = Sf hist r k) /\
     (R <= r <= R + length mem ->
        (dbr = R -> exists v, res = LOk v) /\ (R < dbr -> res = LRetry \/ exists v, res = LOk v)).
   Proof.
-    intros en pcap hist R dbr mem s r k res s' Hinv Hpre H. unfold sp_lookup in H.
+    intros stall en pcap hist R dbr mem s r k res s' Hinv Hpre H. unfold sp_lookup in H.
     destruct (r <? R) eqn:E1.
     { apply Nat.ltb_lt in E1. inversion H; subst. split; [exact Hinv|].
       split; [intros v Hx; discriminate|intro; lia]. }
@@ -924,12 +977,12 @@ Section Space.
     assert (Hr : r = R + (r - R)) by lia.
     assert (HS := Sf_mem hist R mem (r - R) k Hpre E2). rewrite <- Hr in HS.
     assert (Hmods := si_mods _ _ _ _ _ _ Hinv k).
-    assert (Hfall : forall res s', Fall en pcap R dbr s k = (res, s') ->
+    assert (Hfall : forall res s', Fall stall en pcap R dbr s k = (res, s') ->
               Walk (firstn (r - R) mem) k = None ->
               SpInv en hist R dbr mem s' /\ (forall v, res = LOk v -> v = Sf hist r k) /\
               (R <= r <= R + length mem ->
                 (dbr = R -> exists v, res = LOk v) /\ (R < dbr -> res = LRetry \/ exists v, res = LOk v))).
-    { intros res0 s0 Hf Hw. destruct (sp_fall_ok _ _ _ _ _ _ _ _ _ _ Hinv Hf) as [Ha [Hb [Hc Hd]]].
+    { intros res0 s0 Hf Hw. destruct (sp_fall_ok _ _ _ _ _ _ _ _ _ _ _ Hinv Hf) as [Ha [Hb [Hc Hd]]].
       rewrite Hw in HS. split; [exact Ha|]. split; [|now split].
       intros v Hv. rewrite HS. now apply Hb. }
     destruct (Aget k (s_mods K V s)) as [[v n]|] eqn:Em.
@@ -991,11 +1044,17 @@ Section Space.
   (* ------------------------------------------------------------------ operations keep the invariant *)
   Lemma cinvd_ext : forall dl R S S' c, (forall k, S k = S' k) -> CInvD dl R S c -> CInvD dl R S' c.
   Proof.
-    intros dl R S S' c HS [Hl [Hp Hn]]. split; [|split].
+    intros dl R S S' c HS [Hl Hp Hpn Hs Hn].
+    assert (He : forall e, ent_ok R S e -> ent_ok R S' e).
+    { intros e [H1 H2]. split; [exact H1|]. intro Hx. rewrite <- HS. now apply H2. }
+    assert (Hf : forall q, nfe_ok R S q -> nfe_ok R S' q).
+    { intros q [H1 H2]. split; [exact H1|]. intro Hx. rewrite <- HS. now apply H2. }
+    constructor.
     - intros e H. destruct (Hl e H) as [H1 [H2 H3]]. split; [exact H1|split; [exact H2|]].
       intro Hd. rewrite <- HS. now apply H3.
-    - intros e H. destruct (Hp e H) as [H1 [H2 H3]]. split; [exact H1|split; [exact H2|]].
-      intro Hd. rewrite <- HS. now apply H3.
+    - eapply Forall_impl; [|exact Hp]. exact He.
+    - eapply Forall_impl; [|exact Hpn]. exact Hf.
+    - eapply Forall_impl; [|exact Hs]. intros [e|q]; simpl; [apply He|apply Hf].
     - intros k Hk Hd. rewrite <- HS. now apply Hn.
   Qed.
 
@@ -1010,7 +1069,7 @@ Section Space.
 
   Lemma sp_newblock_inv : forall en buf hist R dbr mem s recs,
     SpInv en hist R dbr mem s -> nodup_keys keqb recs = true ->
-    SpInv en hist R dbr (mem ++ [recs]) (sp_newblock K V D keqb interp en buf recs s).
+    SpInv en hist R dbr (mem ++ [recs]) (sp_newblock K V D keqb interp en true R buf recs s).
   Proof.
     intros en buf hist R dbr mem s recs [Hm Hc Hd Hdb] Hnd. unfold sp_newblock.
     constructor; simpl; [now apply mods_ok_newblock| | |exact Hdb].
@@ -1019,7 +1078,7 @@ Section Space.
   Qed.
 
   Lemma sp_flush_inv : forall en hist R dbr mem s,
-    SpInv en hist R dbr mem s -> SpInv en hist R dbr mem (sp_flush K V keqb en s).
+    SpInv en hist R dbr mem s -> SpInv en hist R dbr mem (sp_flush K V keqb en true R s).
   Proof.
     intros en hist R dbr mem s [Hm Hc Hd Hdb]. unfold sp_flush, sp_setc.
     constructor; simpl; [exact Hm| | |exact Hdb].
@@ -1028,12 +1087,20 @@ Section Space.
   Qed.
 
   Lemma sp_prune_inv : forall en n hist R dbr mem s,
-    SpInv en hist R dbr mem s -> SpInv en hist R dbr mem (sp_prune K V keqb en n s).
+    SpInv en hist R dbr mem s -> SpInv en hist R dbr mem (sp_prune K V keqb en true R n s).
   Proof.
     intros en n hist R dbr mem s [Hm Hc Hd Hdb]. unfold sp_prune, sp_setc.
     constructor; simpl; [exact Hm| | |exact Hdb].
     - destruct en; [now apply cinv_flush_prune|exact Hc].
     - intro He. subst en. simpl. now apply Hd.
+  Qed.
+
+  Lemma sp_land_inv : forall en pcap n hist R dbr mem s,
+    SpInv en hist R dbr mem s -> SpInv en hist R dbr mem (sp_land K V en pcap n s).
+  Proof.
+    intros en pcap n hist R dbr mem s [Hm Hc Hd Hdb]. unfold sp_land, sp_setc.
+    constructor; simpl; [exact Hm|now apply cinv_land| |exact Hdb].
+    intro He. subst en. rewrite (Hd eq_refl). unfold cache_land. simpl. now destruct n.
   Qed.
 
   Lemma sp_reset_inv : forall en hist R dbr mem s,
